@@ -2,6 +2,8 @@ package props
 
 import (
 	"fmt"
+	"strconv"
+	"strings"
 	"time"
 
 	"verif/harness/bfs"
@@ -55,6 +57,18 @@ func c01OwnSpecs(quick bool) []*bfs.Spec {
 	specs := []*bfs.Spec{
 		{Prop: "C01", Name: "C01-seq-fee0", Cfg: mintops.Config{Fee: 0}, Init: []string{"fund|8,8"}, Menu: c01Menu, Probe: probeRespend(2), Depth: d},
 	}
+	// requests with 1000 inputs: the re-presented secret sits behind 999 fresh ones (a spent one in a melt, one locked by
+	// an in-flight melt in a swap, both in a state check); one scripted history, judged by the same transition oracles
+	seq := func(lo, hi int) string {
+		var p []string
+		for i := lo; i <= hi; i++ {
+			p = append(p, strconv.Itoa(i))
+		}
+		return strings.Join(p, ",")
+	}
+	specs = append(specs, &bfs.Spec{Prop: "C01", Name: "C01-large-requests", Cfg: mintops.Config{Fee: 0},
+		Init: []string{"fund|" + strings.TrimSuffix(strings.Repeat("1,", 1003), ","), "swap|1002|exact", "meltq|1", "melt|0|1000,1001|P", "meltq|900",
+			"melt|1|" + seq(0, 998) + ",1002|S", "swap|" + seq(0, 998) + ",1000|exact", "check|" + seq(0, 998) + ",1002,1000,1001|P", "melt|1|" + seq(0, 999) + "|S", "check|" + seq(0, 1002) + "|P"}, Depth: 0})
 	if !quick {
 		specs = append(specs, &bfs.Spec{Prop: "C01", Name: "C01-seq-fee100", Cfg: mintops.Config{Fee: 100}, Init: []string{"fund|8,8"}, Menu: c01Menu, Probe: probeRespend(2), Depth: d})
 	}
@@ -72,11 +86,13 @@ func init() {
 			if c.Quick() {
 				runSched(c, "C01", []string{"S1-swap-swap", "S2-swap-melt", "S3-melt-melt", "S5-swap-swapvariant", "S6-pendingmelt-poll-swap", "S8p-swap-melt-pending", "S8f-swap-melt-failed", "S10-melt-poll-swap", "S11-failedmelt-poll-remelt-swap", "S12f-meltfails-remelt-swap"}, 2)
 				runSchedAll(c, "C01", []string{"S13-failedmelt-poll-poll-remelt-swap"}, 1)
+				runSchedAll(c, "C01", []string{"S14-internalmelt-swap"}, 2)
 			} else {
 				runSchedAll(c, "C01", []string{"S1-swap-swap", "S2-swap-melt", "S3-melt-melt", "S4-swap-melt-check", "S5-swap-swapvariant", "S6-pendingmelt-poll-swap", "S6f-pendingmelt-failed-poll-swap", "S8p-swap-melt-pending", "S8f-swap-melt-failed", "S9-two-input-overlap", "S10-melt-poll-swap"}, 3)
 				runSchedAll(c, "C01", []string{"S11-failedmelt-poll-remelt-swap", "S12f-meltfails-remelt-swap", "S12n-meltnotfound-remelt-swap"}, 2)
 				runSchedAll(c, "C01", []string{"S7-swap-swap-melt"}, 2)
 				runSchedAll(c, "C01", []string{"S13-failedmelt-poll-poll-remelt-swap"}, 1)
+				runSchedAll(c, "C01", []string{"S14-internalmelt-swap"}, 2)
 			}
 		},
 		Worker: dispatchWorker(bfs.Worker(c01All)),
